@@ -2,7 +2,12 @@
 
 
 def native(family, shards, budget_s, **kw):
-    return dict(engine="native", family=family, shards=shards, budget_ms=int(budget_s * 1000), **kw)
+    """budget_s == Q: quick shard, bounded by scenario count (reproducible amount of work on any
+    machine, Q is only a cap); otherwise time-bounded"""
+    d = dict(engine="native", family=family, shards=shards, budget_ms=int(budget_s * 1000), **kw)
+    if budget_s == Q and "count" not in kw:
+        d["count"] = QN[family]
+    return d
 
 
 def enum(family, indexes, shards=16, size="normal"):
@@ -22,7 +27,8 @@ def tsan(family, shards, budget_s):
     return dict(engine="tsan", family=family, shards=shards, budget_ms=int(budget_s * 1000))
 
 
-Q = 7      # seconds per native shard, quick
+Q = 90     # quick: cap in seconds per native shard (the shard stops after QN[family] scenarios)
+QN = {"A": 600, "B": 1200, "C": 400, "D": 1000, "E": 700, "G": 2000, "K": 70}   # scenarios per quick shard
 T = 45     # seconds per native shard, thorough
 MQ = 16    # miri seeds, quick
 MT = 192   # miri seeds, thorough
